@@ -30,9 +30,12 @@ Lits == <<[k |-> "lit", kind |-> "int", dec |-> "0", src |-> "0", cls |-> "fin",
          [k |-> "lit", kind |-> "float", dec |-> "0", src |-> "1000000000000000.0", cls |-> "fin", neg |-> FALSE, m |-> "8000000000000000", e |-> -3],
          [k |-> "lit", kind |-> "float", dec |-> "0", src |-> "4294967296.5", cls |-> "fin", neg |-> FALSE, m |-> "4503599627894784", e |-> -20],
          \* an unsuffixed literal beyond the int range is a bigint (its negation is *not* the int minimum)
-         [k |-> "lit", kind |-> "bigint", dec |-> "2147483648", src |-> "2147483648", cls |-> "fin", neg |-> FALSE, m |-> "0", e |-> 0]>>
+         [k |-> "lit", kind |-> "bigint", dec |-> "2147483648", src |-> "2147483648", cls |-> "fin", neg |-> FALSE, m |-> "0", e |-> 0],
+         \* 1e200 written out in digits: its square is not a finite double (the result is outside the tower model: the judge then
+         \* only asks that the folded, the unfolded and the half-folded renderings give the same answer)
+         [k |-> "lit", kind |-> "float", dec |-> "0", src |-> "100000000000000000000000000000000000000000000000000000000000000000000000000000000000000000000000000000000000000000000000000000000000000000000000000000000000000000000000000000000000000000000000000000000.0", cls |-> "fin", neg |-> FALSE, m |-> "5883593420661338", e |-> 612]>>
 IntLits == 1..9
 BigLits == (10..14) \cup {28}
 ByteLits == 15..19
-FloatLits == 20..27
+FloatLits == (20..27) \cup {29}
 =============================================================================
